@@ -55,9 +55,15 @@ type c06spec struct {
 	Hooks []c06tmpl // hook i is named h<i+1>-<id>.sh
 	FailJ int       // index into the expected start-up list of the execution that fails (-1: none)
 	FailK int
+	Names []string  // explicit hook paths (given in lexical order), else h<i>-<id>.sh
 }
 
-func (s c06spec) hookName(i int) string { return fmt.Sprintf("h%d-%s.sh", i+1, s.Hooks[i].id) }
+func (s c06spec) hookName(i int) string {
+	if len(s.Names) > i {
+		return s.Names[i]
+	}
+	return fmt.Sprintf("h%d-%s.sh", i+1, s.Hooks[i].id)
+}
 
 func (s c06spec) expected() []c06item {
 	var out []c06item
@@ -351,6 +357,9 @@ func c06specs() []c06spec {
 		sets = append(sets, []c06tmpl{menu[1], menu[4], menu[0]})
 	}
 	var out []c06spec
+	// paths whose directory-walk order differs from their lexical order ('.' sorts before '/')
+	out = append(out, c06spec{Name: "paths:common.sh,common/x.sh", Hooks: []c06tmpl{menu[1], menu[1]}, FailJ: -1, Names: []string{"common.sh", "common/x.sh"}})
+	out = append(out, c06spec{Name: "paths:10-net.d/b,10-net/a", Hooks: []c06tmpl{menu[1], menu[2]}, FailJ: -1, Names: []string{"10-net.d/b", "10-net/a"}})
 	for _, set := range sets {
 		var ids []string
 		for _, h := range set {
